@@ -146,7 +146,9 @@ pub fn gen_diff_ladder(rng: &mut Rng, sigs: &[(i32, String)], skip: &[i32], inde
         if base.len() != params.len() { continue; }
         let groups: &[&[&str]] = &[&["E", "N", "H", "L"], &["EN", "HL"], &["E", "NHL"], &["ENH", "L"], &["E", "N", "HL"], &["EN", "H", "L"],
             // unusual masks: empty, aux-only, gaps, out of order, overlapping
-            &["", "E"], &["E", "", "N"], &["4567", "E"], &["E", "H"], &["N", "E"], &["EN", "NH"], &["-E", "E"], &["*", "E"], &["E4", "N5"]];
+            &["", "E"], &["E", "", "N"], &["4567", "E"], &["E", "H"], &["N", "E"], &["EN", "NH"], &["-E", "E"], &["*", "E"], &["E4", "N5"],
+            // masks that are not a contiguous run of difficulties, alone and followed / preceded by others
+            &["EH", "L"], &["EH", "N", "L"], &["EL", "N", "H"], &["E", "NL", "H"], &["EH", "NL"], &["EHL", "N"], &["NL", "E", "H"], &["E", "N", "HL4"], &["EH"], &["ENL", "H"]];
         let g = *rng.pick(groups);
         let mut out = String::new();
         for (k, name) in g.iter().enumerate() {
